@@ -561,6 +561,13 @@ def decide(prop, tier, seed):
                 notes.append("%s: oracle(s) of %s refuted in this harness; %s's own oracle holds" % (s["name"], ",".join(r.get("tagged", [])), prop))
         else:
             bad = [c for c in r.get("bad_covers", []) if not c.startswith("COVER-OPT")]
+            if s.get("may_be_pruned"):
+                # a schedule placement at which the placed call is not enabled on this tree
+                # (it meets a lock held by the suspended host): the whole path is pruned by
+                # design; the same call is explored at the other placements
+                bad = [c for c in bad if "end of harness" not in c]
+                if any("end of harness" in c for c in r.get("bad_covers", [])):
+                    notes.append("%s: placed call not enabled at this placement on this tree (path pruned)" % s["name"])
             # optional witnesses a spec declares mandatory for this configuration
             for need in s.get("require_covers", []):
                 hit = [c for c, stt in r.get("covers", {}).items() if need in c]
